@@ -652,6 +652,20 @@ pub fn query<A: HC>(q: &str, t: &mut Toks) -> R<String> {
                             }
                         }
                     }
+                    "nthcount" | "nthlast" | "nthhint" => {
+                        // jump with nth (possibly past the end), then use the internal-iteration / size methods
+                        let mut it = it;
+                        let _ = it.nth(arg);
+                        match ad {
+                            "nthcount" => return Err(it.count()),
+                            "nthlast" => it.last().into_iter().collect(),
+                            _ => {
+                                let (lo, hi) = it.size_hint();
+                                let n = it.count();
+                                return Err(if lo <= n && hi.map_or(true, |h| n <= h) { 1 } else { 0 });
+                            }
+                        }
+                    }
                     "hint" => {
                         // Iterator contract: size_hint bounds the number of items actually yielded, also after `arg` calls to next()
                         let mut it = it;
